@@ -293,4 +293,6 @@ def observe(case):
 
 
 def classify(record, verdict):
-    return "malformed" if verdict.startswith("malformed") else "violation"
+    if verdict.startswith("malformed"):
+        return "malformed"
+    return "drift" if verdict.startswith("drift:") else "violation"
